@@ -206,14 +206,14 @@ def witness(f):
 
 PARTIAL = [
     "reader_builds_full: for every abstract consistent system rendered to token trees in any declaration-respecting order the "
-    "result dictionary equals the system field by field.  Proved: the domains field of ANY well-shaped document "
-    "(C14_reader_builds_domains with the frame theorem C14_other_statements_leave_domains_alone); per statement, in any "
-    "good session: strands (name, class, listed domain names, elements are the registered domain singletons), reactions "
-    "(class, declared type, condensed/detailed filing, rate constant and units), kernel complexes (class, name, "
-    "concentration triple).  Not proved: sequence/structure of complexes in either notation incl. composite expansion, "
-    "macrostate and reaction members, the frame statements for the other fields, and that a consistent system is never "
-    "refused; the whole dictionary is compared with gen_pil.expected on every generated system, on the implementation by "
-    "the oracle and through the model by the correspondence",
+    "result dictionary equals the system field by field.  Proved per statement, in any good session: domains (and the whole "
+    "domains field of ANY well-shaped document, with the frame theorem), strands, kernel complexes with and without "
+    "composite-domain expansion (also phrased on kernel trees via C12), strand-notation complexes, macrostate members, "
+    "reaction type / filing / rate / units / members, concentration.  Not proved: the assembled statement over a whole "
+    "system (frame statements for the non-domain fields, and that a consistent system is never refused: name / canonical "
+    "form freshness in the registries, success of look-ups of declared names); the whole dictionary is compared with "
+    "gen_pil.expected on every generated system, on the implementation by the oracle and through the model by the "
+    "correspondence",
     "grammar_shape_full: every line the PEG interpreter returns on the regenerated PIL grammar satisfies line_okb (the hypothesis "
     "of C14_reader_no_fault / C14_reader_classes / C14_failed_read_keeps_held); not proved: the model op answers BadShape for a "
     "parsed line that violates it, so every document of every correspondence run checks it",
